@@ -26,7 +26,11 @@ type world struct {
 	db    *ContractDB
 	sent  *sentinels
 	loadS float64
+	// set when the grammar actions could not be extracted (see load)
+	actionsNote string
 }
+
+var globalActionsNote string
 
 func repoDir() string {
 	if d := os.Getenv("GOVC_REPO"); d != "" {
@@ -46,6 +50,21 @@ func load() (*world, error) {
 	start := time.Now()
 	cfg := &packages.Config{Mode: packages.LoadAllSyntax, Dir: repoDir(), BuildFlags: []string{"-tags=verif"},
 		Env: append(os.Environ(), "GOFLAGS=-mod=mod", "GOPROXY=off", "GOSUMDB=off", "GOTOOLCHAIN=local")}
+	// the semantic actions of the generated parser, extracted into an overlay
+	// file that exists only for this load (see actions.go)
+	ovName, ovSrc, err := actionsOverlay(repoDir())
+	actionsNote := ""
+	if err != nil {
+		// grammar.y and grammar.go cannot be matched rule by rule (one of them
+		// was edited without the other): the compiled code is unaffected, so
+		// the other obligations go ahead; the actions are reported as unchecked
+		actionsNote = "grammar actions NOT checked in this run: " + err.Error()
+		fmt.Println("WARNING:", actionsNote)
+		ovSrc = nil
+	}
+	if ovSrc != nil {
+		cfg.Overlay = map[string][]byte{ovName: ovSrc}
+	}
 	pkgs, err := packages.Load(cfg, "./path/...")
 	if err != nil {
 		return nil, err
@@ -61,7 +80,8 @@ func load() (*world, error) {
 	}
 	prog, _ := ssautil.AllPackages(pkgs, ssa.NaiveForm|ssa.GlobalDebug|ssa.InstantiateGenerics)
 	prog.Build()
-	w := &world{prog: prog, pkgs: pkgs}
+	w := &world{prog: prog, pkgs: pkgs, actionsNote: actionsNote}
+	globalActionsNote = actionsNote
 	w.db = loadContracts(prog, pkgs)
 	w.db.indexPkgs(pkgs)
 	w.sent = collectSentinels(prog, modulePath)
@@ -120,6 +140,15 @@ func main() {
 	switch os.Args[1] {
 	case "check":
 		os.Exit(cmdCheck(os.Args[2:]))
+	case "actions":
+		// print the extracted grammar actions (the in-memory overlay file)
+		_, src, err := actionsOverlay(repoDir())
+		if err != nil {
+			fmt.Fprintln(os.Stderr, err)
+			os.Exit(2)
+		}
+		os.Stdout.Write(src)
+		return
 	case "list":
 		os.Exit(cmdList(os.Args[2:]))
 	case "dump":
@@ -501,6 +530,24 @@ func runCheck(o checkOpts) int {
 			fmt.Printf("  %-8s %-8s %6.2fs %s\n", r.Verdict, r.Solver, r.TimeS, r.Name)
 		}
 	}
+	// bounded stand-ins registered for this property (never counted as proof)
+	if o.funcs == "" && prop != "all" {
+		br, bviol := boundedFor(prop, os.Getenv("GOVC_NOEVIDENCE") != "")
+		globalBounded = br
+		if bviol > 0 {
+			exit = 1
+		}
+	} else if prop == "all" && o.funcs == "" {
+		globalBounded = nil
+		for _, f := range boundedFilesAll() {
+			pr := strings.SplitN(filepath.Base(f), "_", 2)[0]
+			br, bviol := boundedFor(pr, true)
+			_ = br
+			if bviol > 0 {
+				exit = 1
+			}
+		}
+	}
 	// evidence
 	writeEvidence(prop, o, results, selected, funcsUnder, discharged, byBackend, byKind, reports, knownHit, len(failed), covers, coversOK,
 		time.Since(start).Seconds(), solverTime, w.loadS, genS, solveS, rc, coverUndecided)
@@ -579,6 +626,9 @@ func writeEvidence(prop string, o checkOpts, results []*funcResult, selected []*
 			hav[h] = true
 		}
 	}
+	if globalActionsNote != "" {
+		unsup[globalActionsNote] = true
+	}
 	var samples []any
 	for i, ob := range selected {
 		if i%maxInt(1, len(selected)/8) == 0 && len(samples) < 10 {
@@ -605,12 +655,13 @@ func writeEvidence(prop string, o checkOpts, results []*funcResult, selected []*
 		"slowest":                   slow,
 		"vacuity":                   map[string]any{"covers": covers, "covers_sat": coversOK, "covers_undecided": coverUndecided},
 		"known_findings":            knownHit,
+		"bounded_checks":            boundedEvidence(),
 		"inlined_callees":           keysOf(inl),
 		"uncontracted_callees":      keysOf(hav),
 		"abstracted_or_unsupported": keysOf(unsup),
 		"samples":                   samples,
 		"integers":                  "mathematical Int with explicit wrap per machine operation (functions marked 'mode bv' use 64/32-bit vectors and IEEE floating point)",
-		"extraction_drops":          "bodies of functions outside the module (assumed contracts), text of error messages, DebugRefs, object iteration order, heap addresses; panics become unreachability obligations; termination only where a decreases clause exists",
+		"extraction_drops":          "bodies of functions outside the module (assumed contracts), text of error messages, DebugRefs, object iteration order, heap addresses; panics become unreachability obligations; termination only where a decreases clause exists. The functions parser.pathAction_N are the cases of the generated parser's action switch, copied verbatim from /repo's grammar.go into an in-memory overlay on every run (never written to disk) with their contracts derived from grammar.y; the LALR driver around them (tables, value stack, error recovery) is dropped and trusted to run the action of rule N on the values of that rule's symbols",
 	}
 	if len(knownHit) > 0 || nfailed > 0 {
 		level = "other"
@@ -772,4 +823,23 @@ func (db *ContractDB) isFrameProp(p string) bool {
 		}
 	}
 	return false
+}
+
+var globalBounded []boundedResult
+
+func boundedFilesAll() []string {
+	m, _ := filepath.Glob(filepath.Join(verifDir(), "bounded", "C*_*.go.tmpl"))
+	sort.Strings(m)
+	return m
+}
+
+// boundedEvidence lists the bounded stand-ins that ran with this check; they
+// are labelled bounded and are not part of obligations/discharged.
+func boundedEvidence() []map[string]any {
+	out := []map[string]any{}
+	for _, r := range globalBounded {
+		out = append(out, map[string]any{"name": r.Name, "label": "bounded (not a proof)", "bound": r.Bound, "cases": r.Cases,
+			"failures": len(r.Failures), "known_findings": r.Known, "ran": r.Ran, "template": strings.TrimPrefix(r.File, verifDir()+"/")})
+	}
+	return out
 }
